@@ -501,7 +501,7 @@ func runPhase(c *mon.Case) {
 				}
 				buf := make([]byte, 1<<20)
 				dump := string(buf[:runtime.Stack(buf, true)])
-				if st, why := classifyStuck(dump); st {
+				if st, why, dump := stuckTwice(dump); st {
 					select {
 					case x, ok := <-ch:
 						if !ok {
@@ -948,6 +948,29 @@ func classifyStuck(dump string) (bool, string) {
 	return false, ""
 }
 
+// stuckTwice: a deadlock is a state that lasts. The goroutines are looked at a second time, 300 ms and a burst of
+// scheduler yields later: only two dumps that both show every goroutine of Phase blocked (or gone) count. One look
+// alone raised a false alarm once in two million cases on the loaded machine (thorough, seed 2: a transitional
+// state between the last worker's exit and the closing goroutine's wake-up).
+func stuckTwice(first string) (bool, string, string) {
+	st, why := classifyStuck(first)
+	if !st {
+		return false, "", first
+	}
+	for i := 0; i < 200; i++ {
+		runtime.Gosched()
+	}
+	time.Sleep(300 * time.Millisecond)
+	buf := make([]byte, 1<<20)
+	dump := string(buf[:runtime.Stack(buf, true)])
+	st2, why2 := classifyStuck(dump)
+	if !st2 {
+		return false, "", dump
+	}
+	_ = why
+	return true, why2, dump
+}
+
 type schedResult struct {
 	rs     []res
 	closed bool
@@ -988,7 +1011,7 @@ func runScheduled(pc phaseCase, cpus int, pl plan) schedResult {
 			before := rec.seq.Load()
 			buf := make([]byte, 1<<20)
 			dump := string(buf[:runtime.Stack(buf, true)])
-			st, why := classifyStuck(dump)
+			st, why, dump := stuckTwice(dump)
 			if !st || rec.inflight.Load() != 0 || rec.seq.Load() != before {
 				continue
 			}
@@ -1036,7 +1059,7 @@ func runScheduled(pc phaseCase, cpus int, pl plan) schedResult {
 		before := rec.seq.Load()
 		buf := make([]byte, 1<<20)
 		dump := string(buf[:runtime.Stack(buf, true)])
-		st, why := classifyStuck(dump)
+		st, why, dump := stuckTwice(dump)
 		if !st || rec.inflight.Load() != 0 || rec.seq.Load() != before {
 			continue
 		}
